@@ -176,6 +176,14 @@ def negation(chk, unit, rel, fname):
     fn = unit.func(fname)
     muls = [n for n in ast.walk(fn) if isinstance(n, ast.AugAssign) and isinstance(n.op, ast.Mult)]
     got = sorted(norm(m) for m in muls)
+    # x = -x and x = -1*x are the same sign flip as x *= -1
+    for n in ast.walk(fn):
+        if isinstance(n, ast.Assign) and len(n.targets) == 1 and isinstance(n.targets[0], ast.Subscript):
+            t = norm(n.targets[0])
+            v = norm(n.value)
+            if v in ('-' + t, '-1*' + t, '-1.0*' + t, t + '*-1', t + '*-1.0', '-(' + t + ')'):
+                got.append(t + '*=-1.0')
+    got = sorted(x.replace('*=-1', '*=-1.0') if x.endswith('*=-1') else x for x in got)
     rets = [n for n in ast.walk(fn) if isinstance(n, ast.Return)][0]
     names = [re.match(r'^np\.ravel\((\w+)\)', norm(e)).group(1) for e in rets.value.elts if re.match(r'^np\.ravel\((\w+)\)', norm(e))]
     rot = names[-2:]
